@@ -111,7 +111,7 @@ def convFt : Nat → Y → FR Y
     | .str "struct" | .str "structure" => do
       let b0 : KVs := [("class", cls)]
       let b1 := copyProp m "min-align" "minimum-alignment" b0
-      match kvGet "fields" m with
+      match kvGetNN "fields" m with
       | none => .ok (.map b1)
       | some fv => do
         let fm ← asMap "fields" fv
@@ -170,6 +170,13 @@ def fieldsOf (what : String) (ft : Y) : FR KVs := do
   let f ← req "fields" m
   asMap (what ++ " fields") f
 
+/-- `ft_node.get('fields')`: absent or null → `None` -/
+def optFieldsOf (what : String) (ft : Y) : FR (Option KVs) := do
+  let m ← asMap what ft
+  match kvGetNN "fields" m with
+  | none => .ok none
+  | some f => do let fm ← asMap (what ++ " fields") f; .ok (some fm)
+
 /-- default clock type of a data stream type: the clock the event record `timestamp` member is mapped to,
     else the one of `timestamp_begin`, else the one of `timestamp_end`; `timestamp_begin`/`timestamp_end`
     mapped to different clocks is a configuration error -/
@@ -219,7 +226,7 @@ def convDst (fuel : Nat) (m : KVs) : FR KVs := do
   let pc ← fieldsOf "packet-context-type" pct
   let eh : Option KVs ← match kvGetNN "event-header-type" m with
     | none => .ok none
-    | some ehv => do let f ← fieldsOf "event-header-type" ehv; .ok (some f)
+    | some ehv => optFieldsOf "event-header-type" ehv
   let defClk ← defaultClock pc eh
   let d1 := match defClk with | some c => kvSet "$default-clock-type-name" c d0 | none => d0
   let feats ← dstFeatures fuel pc eh
@@ -253,7 +260,7 @@ def convMeta (fuel : Nat) (mnode : KVs) : FR KVs := do
   -- features from the packet header type
   let phf : KVs ← match kvGetNN "packet-header-type" tr with
     | none => .ok []
-    | some ph => fieldsOf "packet-header-type" ph
+    | some ph => do let f ← optFieldsOf "packet-header-type" ph; .ok (f.getD [])
   let magic ← convFtIfExists fuel (some phf) "magic"
   let uuid ← convFtIfExists fuel (some phf) "uuid"
   let sid ← convFtIfExists fuel (some phf) "stream_id"
